@@ -4403,9 +4403,10 @@ def _match__inside_list_quantifier(
         Adding to matches means either adding the successful match dictionary to `tagss` or creating an `FSTMatch`
         object and adding it to a dedicated match list which is in `tagss` as its own dictionary with key `pat_tag`."""
 
+        tgt_idx = tgt_iter.idx
+
         if is_qpat_list:
             qpat_iter.idx = 0  # reset quantifier list pattern to start since _match__inside_list() doesn't reset it on success
-            tgt_idx = tgt_iter.idx
 
             if (m := _match__inside_list(mstate, qpat_iter, tgt_iter, True)) is None:
                 return False
@@ -4438,6 +4439,7 @@ def _match__inside_list_quantifier(
                 m = FSTMatch(q_pat, t, m)
 
         matches.insert(matches_ins_idx, m)
+        tgt_idxs.append(tgt_idx)  # where this iteration started, a sublist pattern can have taken any number of elements
 
         return True
 
@@ -4452,6 +4454,7 @@ def _match__inside_list_quantifier(
     q_min = pat.min
     q_max = pat.max
     matches_ins_idx = 0x7fffffffffffffff
+    tgt_idxs = []  # start index in target of each successful quantifier pattern match, for stepping back
     count = 0
 
     if q_max is None:
@@ -4519,7 +4522,7 @@ def _match__inside_list_quantifier(
         if greedy:  # if greedy then we are removing previous matches to try again one position to the left
             del matches[matches_del_idx]  # if there are static_tags then we are deleting the dictionary before those
 
-            tgt_iter.idx -= 1  # step back 1
+            tgt_iter.idx = tgt_idxs.pop()  # step back 1 whole match of the quantifier pattern, which is not necessarily 1 element if it is a sublist
             count -= 1
 
         else:  # if non-greedy then we are attempting to match our pattern one position to the right and if successful then try match shorter list
